@@ -158,7 +158,7 @@ fn edge_props(prop: &str, tier: &str, seed: u64, threads: usize, out: &str) {
     // the same histories with a key type whose Hash is coarser than its Eq (two hash values for all keys), non-Copy and
     // heap-owning: whatever the library does with a key's hash or clone beyond what usize shows
     exec::new_section();
-    let wfls: Vec<String> = fls.iter().map(|f| format!("w{f}")).collect();
+    let wfls: Vec<String> = fls.iter().map(|f| format!("w{f}")).chain(fls.iter().map(|f| format!("z{f}"))).collect();
     let nw = if quick { 30 } else { 150 };
     spread(&mut ctxs, nw * wfls.len(), |i| {
         let mut rng = Rng::new(seed.wrapping_mul(1_000_033).wrapping_add(i as u64));
@@ -174,9 +174,9 @@ fn edge_props(prop: &str, tier: &str, seed: u64, threads: usize, out: &str) {
             let tgt = if mode == "cycle" { "-".to_string() } else { rng.below(n).to_string() };
             l.push(format!("search {kind} fwd {} {tgt} none {mode}", rng.below(n)));
         }
-        l
+        if fl.starts_with('z') { gen_edge::zst(l) } else { l }
     });
-    extra.insert("weak_hash_keys".into(), format!("{} histories with colliding key hashes", nw * wfls.len()));
+    extra.insert("weak_hash_keys".into(), format!("{} histories with colliding key hashes resp. zero-sized values", nw * wfls.len()));
     write_outputs(out, &ctxs, extra);
 }
 
@@ -320,7 +320,7 @@ fn search_props(prop: &str, tier: &str, seed: u64, threads: usize, out: &str) {
         // the same searches over nodes whose key type has colliding hashes (visited sets, lookups by key)
         exec::new_section();
         let nw = if quick { 120 } else { 1500 };
-        let wfls: Vec<String> = flavours.iter().map(|f| format!("w{f}")).collect();
+        let wfls: Vec<String> = flavours.iter().map(|f| format!("w{f}")).chain(flavours.iter().map(|f| format!("z{f}"))).collect();
         let p = prop.to_string();
         spread(&mut ctxs, nw, |i| {
             let mut rng = Rng::new(seed.wrapping_mul(7_000_033).wrapping_add(i as u64));
@@ -340,9 +340,9 @@ fn search_props(prop: &str, tier: &str, seed: u64, threads: usize, out: &str) {
                     }
                 }
             }
-            l
+            if fl.starts_with('z') { gen_edge::zst(l) } else { l }
         });
-        extra.insert("weak_hash_keys".into(), format!("{nw} graphs searched with colliding key hashes"));
+        extra.insert("weak_hash_keys".into(), format!("{nw} graphs searched with colliding key hashes resp. zero-sized values"));
     }
     write_outputs(out, &ctxs, extra);
 }
@@ -439,7 +439,9 @@ fn cont_props(prop: &str, tier: &str, seed: u64, threads: usize, out: &str) {
             spread(&mut ctxs, nw, |i| {
                 let mut rng = Rng::new(seed.wrapping_mul(79).wrapping_add(i as u64));
                 let g = gen_search::random_graph(&mut rng, 9);
-                gen_cont::scc_case(["wdi", "wsdi"][i % 2], &format!("wk{i}"), &g, &mut rng, 3)
+                let fl = ["wdi", "wsdi", "zdi", "zsdi"][i % 4];
+                let l = gen_cont::scc_case(fl, &format!("wk{i}"), &g, &mut rng, 3);
+                if fl.starts_with('z') { gen_edge::zst(l) } else { l }
             });
             extra.insert("weak_hash_keys".into(), format!("{nw} graphs"));
         }
@@ -541,13 +543,13 @@ fn cont_props(prop: &str, tier: &str, seed: u64, threads: usize, out: &str) {
             let nw = if quick { 120 } else { 2000 };
             spread(&mut ctxs, nw, |i| {
                 let mut rng = Rng::new(seed.wrapping_mul(83).wrapping_add(i as u64));
-                let fl = ["wdi", "wsdi", "wun", "wsun"][i % 4];
+                let fl = ["wdi", "wsdi", "wun", "wsun", "zdi", "zsdi", "zun", "zsun"][i % 8];
                 let nk = 2 + rng.below(7);
                 let mut l = gen_cont::cont_history(&mut rng, &fl[1..], &format!("wk{i}"), nk, 80);
                 l[0] = format!("case {fl} wk{i}");
                 let keep = ["new ", "connect ", "disconnect ", "isolate ", "dump", "g.new ", "g.newcap ", "g.insert ", "g.remove ", "g.get ", "g.contains ", "g.len ", "g.is_empty ", "g.to_vec ", "g.iter ", "g.roots ", "g.leaves ", "g.orphans ", "case "];
                 l.retain(|x| keep.iter().any(|k| x.starts_with(k)));
-                l
+                if fl.starts_with('z') { gen_edge::zst(l) } else { l }
             });
             extra.insert("weak_hash_keys".into(), format!("{nw} container histories"));
             // C18: exhaustive histories over a small alphabet, random histories
